@@ -15,16 +15,18 @@
 (*                           branch but has not yet taken its entry out of the table             *)
 (*                 starting  timer branch: entry removed (only its OWN entry), about to run      *)
 (*                 claimed   RunJob / RunJobIfExists took it out of the table: runs exactly once *)
-(*                 dead      CancelJob took it out of the table before its timer expired         *)
-(*                 xrace     CancelJob took it out of the table AFTER its timer had expired: the *)
-(*                           goroutine is already in the timer branch and runs the job all the   *)
-(*                           same (Scheduler.tla: GSelTimer is enabled beside a pending cancel;  *)
-(*                           C02 only promises "cancelled clearly before its time never runs")   *)
+(*                 dead      CancelJob took it out of the table: it never runs - also when its    *)
+(*                           timer had already fired (the timer branch claims the job under the  *)
+(*                           state lock and leaves if the cancel got there first: repair 7cb52d1, *)
+(*                           found by this composition)                                           *)
+(*                 xrace     NAMED DEVIATION (CancelRace = TRUE, the scheduler before that        *)
+(*                           repair): CancelJob took a FIRED job out of the table and reported    *)
+(*                           success, yet the goroutine, already in the timer branch, runs it     *)
 (*                 mark / body / signed / ending   the job function is running (below)           *)
 (*                 done                                                                          *)
-(*               This is Scheduler.tla after the two repairs in the repository: a claimed job    *)
-(*               runs exactly once whatever the timer does, and a goroutine removes only its own *)
-(*               entry.  DeleteByName = TRUE is the named deviation of the code before the       *)
+(*               This is Scheduler.tla after the three repairs in the repository: a claimed job  *)
+(*               runs exactly once whatever the timer does, a goroutine removes only its own     *)
+(*               entry, a job whose CancelJob succeeded never runs.  DeleteByName = TRUE is the named deviation of the code before the       *)
 (*               second repair (the timer branch deletes whatever entry has its name).           *)
 (*   attester    (Attester.tla, services/attester/standard)   the job body: MarkOne per          *)
 (*               validator (one critical section each: skip if <<epoch, v>> is marked, else      *)
@@ -62,7 +64,8 @@ CONSTANTS
     FTs,            \* subset of BOOLEAN: fast track attestations on head events
     Oracles,        \* duty oracles to start from: [<<epoch, version>> -> [Validators -> 0..P-1]] (offset of the duty slot)
     Late,           \* EnvLateness: a job for slot s has left its marking loop by the end of slot s + Late
-    CancelRace,     \* TRUE: the scheduler as built (state xrace exists).  FALSE: idealised - a successful CancelJob means the job never runs
+    CancelRace,     \* FALSE: the intended scheduler (and the repository since 7cb52d1): a successful CancelJob means the job never runs.
+                    \* TRUE: named deviation - a cancel that lands on a fired timer is overtaken (state xrace)
     DeleteByName,   \* FALSE: as repaired.  TRUE: named deviation - the timer branch deletes the table entry by name
     Overlap,        \* FALSE: EnvNoOverlap - fetch / cancel / schedule sequences for one epoch do not overlap (the open finding
                     \*        C03-overlapping-refresh-stale-attester-jobs is outside this composition).  TRUE: they may
